@@ -49,8 +49,13 @@ func (p Precompile) DepositOrWithdraw(
 		return nil, err
 	}
 
+	// The error returned by this function is converted into a `false` return value by `Run`,
+	// so the transaction isn't reverted when a step fails. Hence, all state changes are performed
+	// on a cached context which is only written when every step has succeeded. Otherwise, a failure
+	// when updating the validator list for native restaking would leave the asset state half updated.
+	cachedCtx, writeFunc := ctx.CacheContext()
 	// call assets keeper to perform the deposit or withdraw action
-	err = p.assetsKeeper.PerformDepositOrWithdraw(ctx, depositWithdrawParams)
+	err = p.assetsKeeper.PerformDepositOrWithdraw(cachedCtx, depositWithdrawParams)
 	if err != nil {
 		return nil, err
 	}
@@ -64,7 +69,7 @@ func (p Precompile) DepositOrWithdraw(
 		}
 		_, assetID := assetstypes.GetStakerIDAndAssetID(depositWithdrawParams.ClientChainLzID,
 			depositWithdrawParams.StakerAddress, depositWithdrawParams.AssetsAddress)
-		err = p.assetsKeeper.UpdateNSTValidatorListForStaker(ctx, assetID,
+		err = p.assetsKeeper.UpdateNSTValidatorListForStaker(cachedCtx, assetID,
 			hexutil.Encode(depositWithdrawParams.StakerAddress),
 			hexutil.Encode(depositWithdrawParams.ValidatorPubkey),
 			opAmount)
@@ -72,6 +77,7 @@ func (p Precompile) DepositOrWithdraw(
 			return nil, err
 		}
 	}
+	writeFunc()
 
 	// get the latest asset state of staker to return.
 	stakerID, assetID := assetstypes.GetStakerIDAndAssetID(depositWithdrawParams.ClientChainLzID, depositWithdrawParams.StakerAddress, depositWithdrawParams.AssetsAddress)
